@@ -11,8 +11,8 @@
      finite_dec s         DecNumeral s ip _ with ip < 2^1024 - 2^970 (ParseFloat does not overflow)
      in_int64 z           -2^63 <= z <= 2^63 - 1
    34 is the double quote, 39 the single quote, 47 the slash, 61 the equals sign. *)
-From Coq Require Import List NArith ZArith Bool.
-From JV Require Import Bytes QStr Query QueryProofs HttpChan HttpChanProofs.
+From Coq Require Import List NArith ZArith Bool Permutation.
+From JV Require Import Bytes QStr Query QueryProofs HttpChan HttpChanProofs SameResults.
 Import ListNotations.
 Local Open Scope N_scope.
 
@@ -145,6 +145,26 @@ Theorem c19_chan_no_leak : forall tr s,
 Proof. exact chan_no_leak. Qed.
 Print Assumptions c19_chan_no_leak.
 
+(* Close waits for every Send: from the moment c.rsp is closed (a fortiori once Close has returned)
+   every Send that was accepted has its goroutine registered, that goroutine has made its round trip
+   and returned; none is Doing or Holding; the WaitGroup counter is zero.  For all label sequences.
+   (In the model, as in the code, the wg increment belongs to the Send label itself, not to the
+   goroutine it starts -- that is what makes this true.) *)
+Theorem c19_close_waits_for_every_send : forall tr s,
+  run init tr = Some s -> phase s = CRspClosed \/ phase s = CReturned ->
+  wg s = 0 /\ length (gs s) = n_send tr /\
+  forall j, j < n_send tr ->
+    exists r d, nth_error (gs s) j = Some (Done r d) /\ dos j tr = [r].
+Proof. exact close_waits_for_every_send. Qed.
+Print Assumptions c19_close_waits_for_every_send.
+
+(* ... because c.rsp is closed only at a state whose counter is zero and all of whose goroutines are Done *)
+Theorem c19_rsp_closed_only_when_idle : forall tr s s',
+  run init tr = Some s -> step s HRspClose = Some s' ->
+  wg s = 0 /\ forall j g, nth_error (gs s) j = Some g -> exists r d, g = Done r d.
+Proof. exact rsp_closed_only_when_idle. Qed.
+Print Assumptions c19_rsp_closed_only_when_idle.
+
 (* At every reachable state, closed or not: bodies opened = bodies closed + bodies
    held by goroutines blocked on the rendezvous; wg = goroutines not yet returned;
    nothing is taken twice; a 204 is never handed to Recv or to the drain loop. *)
@@ -166,19 +186,43 @@ Theorem c19_close_progress : forall tr s,
 Proof. exact close_progress. Qed.
 Print Assumptions c19_close_progress.
 
-(* PARTIAL.  Full statement (DESIGN section 8, c19_same_results): "a jrpc2.Client whose transport is
-   jhttp.Channel against a jhttp.Bridge returns, for every call/notify/batch workload and every order in
-   which the HTTP responses arrive, what it returns over a direct connection".  That needs the client model
-   (C04: matching replies by id makes the arrival order irrelevant) and the bridge model (C18), which are not
-   part of this development yet.  Proved here is the channel's share: while the channel is open nothing is
-   discarded, and when all request goroutines have returned, Recv has yielded exactly the non-empty
-   (non-204) replies and Do errors, each exactly once, and no 204 -- the message multiset a direct
-   connection delivers.  The end-to-end comparison is done by the harness family hc:bridge. *)
-Theorem c19_same_results_partial : forall tr s,
+(* While the channel is open nothing is discarded, and when all request goroutines have returned, Recv
+   has yielded exactly the non-empty (non-204) replies and Do errors, each exactly once, and no 204. *)
+Theorem c19_open_channel_delivers_all : forall tr s,
   run init tr = Some s -> ~ In HClose tr -> forallb is_done (gs s) = true ->
   forall j, j < n_send tr ->
     exists r, dos j tr = [r] /\ n_drain j tr = 0 /\ n_recv j tr = (if is204 r then 0 else 1).
 Proof. exact chan_delivers_all. Qed.
+Print Assumptions c19_open_channel_delivers_all.
+
+(* ... as streams: what Recv yielded, in the order it yielded it, is a permutation of what a direct
+   connection delivers when the peer answers in request order (every reply but the empty
+   acknowledgements), and no request is answered twice in either. *)
+Theorem c19_recv_stream_is_permutation : forall tr s,
+  run init tr = Some s -> ~ In HClose tr -> forallb is_done (gs s) = true ->
+  Permutation (recv_stream tr) (direct_stream tr) /\
+  NoDup (map fst (recv_stream tr)) /\ NoDup (map fst (direct_stream tr)).
+Proof. exact recv_is_permutation_of_direct. Qed.
+Print Assumptions c19_recv_stream_is_permutation.
+
+(* PARTIAL.  Full statement (DESIGN section 8, c19_same_results): "a jrpc2.Client whose transport is
+   jhttp.Channel against a jhttp.Bridge returns, for every call/notify/batch workload and every order in
+   which the HTTP responses arrive, what it returns over a direct connection".
+   Proved: for ANY client -- given as the function from the reply stream its Recv yields to the results
+   its operations return -- whose results are the same for every permutation of a reply stream that
+   answers each request at most once (premise `order_irrelevant`, the shape of c04_order_irrelevant),
+   the results over jhttp.Channel equal the results over the direct stream.
+   Missing: the premise has to be instantiated with the client model's theorem c04_order_irrelevant
+   (coq/cli, being proved), and the replies themselves have to be identified with the Bridge model's
+   (coq/http/Bridge.v, C18) per-request responses.  The end-to-end comparison is done by the harness
+   families hc:bridge and hc:bridgerace. *)
+Theorem c19_same_results_partial :
+  forall (outcome : Type) (client_results : list reply -> outcome),
+  (forall a b : list reply, NoDup (map fst a) -> Permutation a b -> client_results a = client_results b) ->
+  forall tr s,
+    run init tr = Some s -> ~ In HClose tr -> forallb is_done (gs s) = true ->
+    client_results (recv_stream tr) = client_results (direct_stream tr).
+Proof. exact same_results_given_order_irrelevance. Qed.
 Print Assumptions c19_same_results_partial.
 
 (* Without fix F11 (drain loop does not close bodies) the property is false. *)
